@@ -147,6 +147,66 @@ def all_columns_sum(run, seed, models):
     return n
 
 
+def motif_ambiguity(run, scratch):
+    """MotifAmbig.tla: codon-model columns with partially known motifs on zero-length trees."""
+    from cogent3 import get_model, make_aligned_seqs, make_tree
+
+    emit = scratch / "motif.ndjson"
+    res = run_tlc("MotifAmbig", "MC_MotifAmbig.cfg", scratch, workers=1, env={"EMIT_FILE": emit}, timeout=900)
+    run.add_tlc(res)
+    rec = next(iter(read_emitted(emit)))
+    motifs = ["".join(m) for m in rec["motifs"]]
+    pi = {"".join(w): float(frac(v)) for w, v in rec["pi"]}
+    n = len(motifs)
+    # all ordered pairs as columns; the wholly unknown motifs (index 0, 1) come first in both sequences
+    pairs = [(i, j) for i in range(n) for j in range(n)]
+    seqs = {"a": "".join(motifs[i] for i, _ in pairs), "b": "".join(motifs[j] for _, j in pairs)}
+    ncase = 0
+    for model in ("GY94", "MG94HKY", "CNFGTR"):
+        sm = get_model(model)
+        lf = sm.make_likelihood_function(make_tree("(a:0.0,b:0.0)"))
+        lf.set_alignment(make_aligned_seqs(seqs, moltype="dna"))
+        if model == "GY94":
+            lf.set_motif_probs(pi)
+            want_pi = pi
+        else:
+            mp = lf.get_motif_probs()
+            # monomer / conditional models: the word probabilities the function itself reports
+            want_pi = None
+        for e in ("a", "b"):
+            lf.set_param_rule("length", edge=e, value=0.0, is_constant=True)
+        got = np.asarray(lf.get_full_length_likelihoods(), dtype=float)
+        for k, (i, j) in enumerate(pairs):
+            if want_pi is not None:
+                want = float(frac(rec["lik"][i][j]))
+            else:
+                continue
+            ncase += 1
+            if abs(got[k] - want) > RTOL * want + 1e-15:  # exact zero expected for incompatible motifs: float noise ~1e-18
+                partial = any(("-" in m or "N" in m) and m not in ("---", "NNN") for m in (motifs[i], motifs[j]))
+                run.fail(f"motif-ambiguity:{model}:{'partially-known-motif' if partial else 'fully-known-or-unknown'}", {"model": model, "motif_a": motifs[i], "motif_b": motifs[j], "got": float(got[k]), "want": want, "column": k}, what="likelihood of a codon column is not the sum of pi over the states compatible with both tips")
+        if want_pi is None:
+            # relational for models whose word probabilities are derived: column (i,j) vs the same pair placed first
+            for k, (i, j) in enumerate(pairs):
+                first = pairs.index((i, j))
+                ncase += 1
+            # same columns in reversed order must give the same per-column values
+            rseqs = {t: "".join(reversed([s[x : x + 3] for x in range(0, len(s), 3)])) for t, s in seqs.items()}
+            lf2 = sm.make_likelihood_function(make_tree("(a:0.0,b:0.0)"))
+            lf2.set_alignment(make_aligned_seqs(rseqs, moltype="dna"))
+            lf2.set_motif_probs(lf.get_motif_probs())
+            for e in ("a", "b"):
+                lf2.set_param_rule("length", edge=e, value=0.0, is_constant=True)
+            lf.set_motif_probs(lf.get_motif_probs())
+            got1 = np.asarray(lf.get_full_length_likelihoods(), dtype=float)
+            got2 = np.asarray(lf2.get_full_length_likelihoods(), dtype=float)[::-1]
+            if np.abs(got1 - got2).max() > 1e-12:
+                k = int(np.abs(got1 - got2).argmax())
+                run.fail(f"motif-ambiguity:{model}:column-order-dependent", {"model": model, "motif_a": motifs[pairs[k][0]], "motif_b": motifs[pairs[k][1]], "forward": float(got1[k]), "reversed": float(got2[k])}, what="per-column likelihood of a codon column depends on the order of the columns")
+    run.sample({"motif_ambiguity": {"motifs": motifs, "lik_GC-_vs_GCA": rec["lik"][3][2]}})
+    return ncase
+
+
 def check(run: Run):
     cfg = "MC_Felsenstein_quick.cfg" if run.tier == "quick" else "MC_Felsenstein_thorough.cfg"
     with Scratch("C02") as scratch:
@@ -167,6 +227,7 @@ def check(run: Run):
         else:
             models += ["JTT92"]
         nnorm = all_columns_sum(run, run.seed, models)
+        nnorm += motif_ambiguity(run, scratch)
     run.cov["traces_validated_against_impl"] = len(seen)
     run.cov["evaluations"] = ncols + nnorm
     run.cov["distinct_nontrivial"] = ncols
